@@ -132,8 +132,21 @@ def run(rep):
             rep.ok('C19.b.no-panic', f'panic-free:{fn}', body.where(), f'{sum(1 for _ in body.calls())} call sites, no panic-capable callee')
     # ---- c: formatted output used only under success && non-empty && written --------------------------------------
     n_uses = 0
-    for fn in sorted(F):
-        body = mir.bodies[fn]
+    # the guards may sit in a helper (run the formatter, return Some(output) only when the write succeeded) and the use in its caller, or
+    # the other way round: each formatter function that no other formatter function calls is examined with its formatter callees
+    # inlined (MIR level, branches on a helper's Option/Result correlated with the paths that construct each variant)
+    from engine_mir import inlined
+    cg = mir.call_graph()
+    roots = [fn for fn in sorted(F) if not any(fn in cg.get(o, ()) for o in F if o != fn)] or sorted(F)
+    covered = set()
+    views = []
+    for fn in roots:
+        nb = inlined(mir, fn, depth=4, skip=[n for n in mir.bodies if n not in F])
+        views.append((fn, nb))
+        covered |= {fn} | {t.get('inlined') for blk in nb.blocks for t in [blk['term']] if t.get('inlined')}
+    for fn in sorted(F - covered):
+        views.append((fn, mir.bodies[fn]))
+    for fn, body in views:
         for bb, what in stdout_uses(body):
             n_uses += 1
             gs = guards(body, bb)
